@@ -11,14 +11,16 @@ from zope.interface import Interface, Attribute, Invalid
 from zope.interface.interface import InterfaceClass
 
 from .. import gen
+from .common import wmod, newworld
 
 CALLS = []
 
 
 def build(dag, defs):
+    newworld()
     I = []
     for i, bs in enumerate(dag):
-        attrs = {'__module__': 'w'}
+        attrs = {'__module__': wmod()}
         if defs[i]:
             attrs['x'] = Attribute('x of %d' % i)
             attrs['y%d' % i] = Attribute('only in %d' % i)
